@@ -411,7 +411,9 @@ func c04Run(r *vt.Run, c c04Case) (points []sim.Point, devDesc string, found []c
 				pubOverDead = true
 			}
 		})
-		// (d) at the instant of publication, faulted iteration or not: no member carries a recovery mark
+		// (d) at the instant of publication, faulted iteration or not: no host that carries a recovery mark
+		// is added to the list
+		pubPrev := h.ActiveNodes()
 		w.OnApply = append(w.OnApply, func(ap *sim.Applied) {
 			if !ap.Effect || ap.Call.Kind != "zk" || ap.Call.Op != "set" || ap.Call.Target != vns+"/active_nodes" {
 				return
@@ -421,10 +423,14 @@ func c04Run(r *vt.Run, c c04Case) (points []sim.Point, devDesc string, found []c
 				return
 			}
 			for _, host := range pub {
-				if host != h.MasterKey() && w.ZK.Exists(vns+"/recovery/"+host) {
-					violate("C04/4-list-never-contains-marked-for-recovery/at-publication", fmt.Sprintf("%s published the list %v although %s is marked for recovery; %s", ap.Call.Proc, pub, host, c))
+				// (a member that was in the list already and is merely kept by an intermediate write - SetRecovery
+				// of another host re-publishes the old list minus that host - is evicted by the same iteration's
+				// update; what must never happen is that a marked host is ADDED)
+				if host != h.MasterKey() && w.ZK.Exists(vns+"/recovery/"+host) && !slices.Contains(pubPrev, host) {
+					violate("C04/4-list-never-contains-marked-for-recovery/at-publication", fmt.Sprintf("%s published the list %v (before: %v) although %s is marked for recovery; %s", ap.Call.Proc, pub, pubPrev, host, c))
 				}
 			}
+			pubPrev = pub
 		})
 		h.MarkMonitor(func(host, detail string) {
 			violate("C04/4-list-never-contains-marked-for-recovery/at-marking", detail)
